@@ -14,6 +14,7 @@ REBASED = {"C02b": "context moved by the C16 fix (3a127e2)", "C05b": "rewritten 
            "C19a": "rewritten onto the C19 fix (080f984)", "C19b": "rewritten onto the C19 fix (080f984)",
            "C15b": "rewritten onto the C15 fix (23b5ba4)"}
 ROUND2 = {"C16a", "C16c"} | {p + v for p in ("C01", "C04", "C08", "C11", "C12", "C15", "C17", "C19") for v in "cd"}
+ROUND3 = {p + v for p in ("C05", "C06", "C07", "C10", "C13", "C14", "C18", "C20") for v in "cd"}
 NOTES = {
     "C03b": "correct over the reals, wrong only through binary64 rounding: invisible in real mode (DESIGN 11.3)",
     "C08b": "correct over the reals, wrong only through binary64 rounding: invisible in real mode (DESIGN 11.3)",
@@ -23,7 +24,7 @@ NOTES = {
             "what C12 reports is a side effect of the same edit (ZeroDivisionError instead of nan for an empty error array)",
     "C09a": "found after 28 min: the half-turn case is a division-by-zero (poison) path and angles beyond pi near it; every other "
             "obligation first runs into its time-out",
-    "C04d": "no verdict within 60 min (DESIGN 11.3): not a pass",
+    "C04d": "first examined with no verdict within 60 min; reported in 10 s since the wiring cases with Umeyama replaced by its contract were added (DESIGN 11.3)",
     "C10a": "the solver finds a counterexample sitting exactly on a threshold; it does not reproduce in binary64: exit 3, no VIOLATION line",
 }
 
@@ -52,7 +53,7 @@ for sid in sorted(os.listdir(SEEDS)):
     meta = {
         "id": sid, "property": sid[:3],
         "origin": "fresh sub-agent that was given only the text of property %s and its own scratch worktree of the repository (%s)" % (
-            sid[:3], "second round, at /repo HEAD 23b5ba4" if sid in ROUND2 else "first round, at the pinned commit aed3ce0"),
+            sid[:3], "second round, at /repo HEAD 23b5ba4" if sid in ROUND2 else "third round, at /repo HEAD 23b5ba4" if sid in ROUND3 else "first round, at the pinned commit aed3ce0"),
         "patch_applies_to": "/repo HEAD 23b5ba4 with `git -C /repo apply seeded/%s/patch.diff`" % sid,
         "rebased": REBASED.get(sid),
         "breaks": re.sub(r"\s+", " ", desc)[:700],
